@@ -2,13 +2,13 @@
 from vx.unit import Unit
 from vx.extract import C
 
-PROPS = ['C16', 'C18', 'C01']
+PROPS = ['C16', 'C18', 'C03', 'C01']
 HEADER = 'use vstd::prelude::*;\nverus! {\n'
 FOOTER = '\n} // verus!\nfn main() {}\n'
 
 
 def build(repo, findings):
-    u = Unit('U17', 'trap handler invocation and the -c front-end exit hook', repo, ['C16', 'C18'], safety_props=['C01', 'C16'])
+    u = Unit('U17', 'trap handler invocation and the -c front-end exit hook', repo, ['C16', 'C18', 'C03'], safety_props=['C01', 'C16'])
     tr = u.source('brush-core/src/shell/traps.rs')
     ex = u.source('brush-core/src/shell/execution.rs')
     sh = u.source('brush-core/src/shell.rs')
@@ -44,6 +44,7 @@ def build(repo, findings):
         C('C16 runs-the-registered-command', '''final(self).runs().len() == old(self).runs().len() + 1
     ==> old(self).traps.handler(signal) is Some && final(self).runs().last().text == old(self).traps.handler(signal)->Some_0.command@'''),
         C('C16 exit-handler-runs-when-due', '(signal is Exit && exit_due(*old(self))) ==> final(self).runs().len() == old(self).runs().len() + 1'),
+        C('C03 a-trap-handler-is-no-errexit-exempt-context-of-its-own-it-runs-under-the-exemption-of-the-interrupted-flow', 'final(self).runs().len() == old(self).runs().len() + 1 ==> final(self).runs().last().exempt == params.suppress_errexit'),
     ])
     u.add(f)
     g = tr.method_anywhere('on_exit').r1().r3().r11()
